@@ -1072,6 +1072,17 @@ def m_to_owned(ex, m, args, callee):
 def m_str_index(ex, m, args, callee):
     s = val(args[0])
     idx = val(args[1])
+    if isinstance(s, SymStr) and getattr(s, 'wide', False) and isinstance(idx, Struct) and idx.name in ('RangeTo', 'RangeFrom'):
+        # a byte offset into text whose characters have symbolic widths: it must fall on a character boundary - one branch per
+        # boundary, a panic if it falls inside a character or beyond the end
+        off = idx.fields[0]
+        acc = z3.IntVal(0)
+        for kk in range(len(s.chars) + 1):
+            if ex.branch(simp(acc == zint(off)) if True else None, 'byte offset is the boundary before character %d' % kk):
+                return SymStr(s.chars[:kk], True) if idx.name == 'RangeTo' else SymStr(s.chars[kk:], True)
+            if kk < len(s.chars):
+                acc = acc + utf8_width(s.chars[kk])
+        ex.panic('byte index is not a char boundary (or out of range) for string slice')
     if not isinstance(s, str):
         raise Unmodelled('slicing a non-concrete string')
     b = s.encode('utf-8')
@@ -1425,9 +1436,24 @@ def m_str_len(ex, m, args, callee):
         n = len(t.encode('utf-8'))
     elif isinstance(t, SymStr):
         n = len(t.chars)
+        if getattr(t, 'wide', False) and k == 'len':
+            return simp(sum_int([utf8_width(c) for c in t.chars]))
     else:
         raise Unmodelled('len of opaque string')
     return n if k == 'len' else n == 0
+
+
+def utf8_width(c):
+    if is_conc(c):
+        return len(chr(int(c)).encode('utf-8'))
+    return z3.If(c < 0x80, 1, z3.If(c < 0x800, 2, z3.If(c < 0x10000, 3, 4)))
+
+
+def sum_int(xs):
+    acc = z3.IntVal(0)
+    for x in xs:
+        acc = acc + (z3.IntVal(x) if is_conc(x) else x)
+    return acc
 
 
 @model(r'^String::(as_str|as_mut_str)$|^<impl str>::(trim|trim_start|trim_end)$')
